@@ -51,6 +51,9 @@ type Item struct {
 	Sp     Spelling
 	Quoted bool   // argument written as a Go string literal
 	Flags  []*Opt // ICluster
+	// OptNoArg: the cluster ends in an optional-argument option that is given no argument (it takes its optional
+	// value; the next token is not consumed)
+	OptNoArg bool
 	Long   bool   // IFlag / IOptNoArg: long form
 	Cmd    *Cmd
 	Via    string // ICmd: the word used (name or alias)
@@ -88,6 +91,9 @@ func renderItem(d *Decl, it *Item) []string {
 		s := "-"
 		for _, f := range it.Flags {
 			s += string(f.Short)
+		}
+		if it.Opt != nil && it.OptNoArg {
+			return []string{s + string(it.Opt.Short)}
 		}
 		if it.Opt != nil {
 			return []string{s + string(it.Opt.Short), it.argText()}
@@ -480,7 +486,7 @@ func (w *walker) addOcc(o *Opt) {
 func (w *walker) addCluster() bool {
 	r := w.r
 	var fl []*Opt
-	var argers []*Opt
+	var argers, optionals []*Opt
 	for _, o := range w.scope.Addressable(w.d) {
 		if o.Short == 0 || w.scope.Short[o.Short] != o {
 			continue
@@ -492,6 +498,8 @@ func (w *walker) addCluster() bool {
 			fl = append(fl, o)
 		} else if !o.Optional {
 			argers = append(argers, o)
+		} else {
+			optionals = append(optionals, o)
 		}
 	}
 	if len(fl) == 0 {
@@ -515,6 +523,9 @@ func (w *walker) addCluster() bool {
 			it.Opt, it.Text, it.Quoted = o, txt, q
 		}
 	}
+	if it.Opt == nil && len(optionals) > 0 && r.Chance(1, 3) {
+		it.Opt, it.OptNoArg = optionals[r.Intn(len(optionals))], true
+	}
 	if len(it.Flags) == 1 && it.Opt == nil {
 		return false
 	}
@@ -522,7 +533,9 @@ func (w *walker) addCluster() bool {
 	for _, f := range it.Flags {
 		w.exp.occur(f, nil)
 	}
-	if it.Opt != nil {
+	if it.Opt != nil && it.OptNoArg {
+		w.exp.occurOptional(it.Opt)
+	} else if it.Opt != nil {
 		w.exp.occur(it.Opt, &it.Text)
 	}
 	return true
@@ -988,7 +1001,9 @@ func Denote(d *Decl, items []*Item) *Denotation {
 			for _, f := range it.Flags {
 				w.exp.occur(f, nil)
 			}
-			if it.Opt != nil {
+			if it.Opt != nil && it.OptNoArg {
+				w.exp.occurOptional(it.Opt)
+			} else if it.Opt != nil {
 				t := it.Text
 				w.exp.occur(it.Opt, &t)
 			}
